@@ -135,3 +135,41 @@ PROPS = {
         'Kani modular harnesses with contract stubs on the unmodified crate + Verus trait-level contracts on extracted impls',
         'E::default() is a soft error (documented requirement on implementors); closures/combiners are pure'),
 }
+
+
+# ------------------------------------------------------------------------------------------------
+# additions of the third building session (units integrated on 2026-09-24): kept as amendments so that the
+# original texts above stay readable; `not_decided` texts are replaced where a listed gap has been closed
+# ------------------------------------------------------------------------------------------------
+def _add(pid, field, text):
+    PROPS[pid][field] = PROPS[pid][field].rstrip() + ' ' + text
+
+
+def _set(pid, field, text):
+    PROPS[pid][field] = text
+
+
+_add('C03', 'decides', 'Generator (gen_balance): both sides of the by-ref protocol are proved on the real bodies - stash: the c-th instruction is EnqueueToReturnStack(j) of the c-th by-ref argument j (the .enumerate() loop is read after rewrite R14), un-stash: write-backs in argument order; by-value named arguments are converted to the parameter type right before PushNamed, pairs in order.')
+_set('C03', 'not_decided', 'that a store through the reference returned by resolve_name_ptr_mut lands in the denoted variable (opaque stores); SHARED resolution beyond the name tables (C13); re-evaluation of index expressions at write-back')
+_add('C05', 'decides', 'Generator (gen_balance): the jump that leaves a THEN / ELSEIF / CASE block after its last statement is a statement address (block_exit_is_marked), so RESUME NEXT after an error in the last statement of the block continues after END IF / END SELECT.')
+_add('C06', 'decides', 'Generator (gen_balance): a by-value named argument is converted to its parameter type; the STEP of a FOR reaches register D converted to the counter type and its sign test is self-contained. INPUT (file_wrappers_input): a typed number that is not a value of the variable type raises Overflow and nothing is stored.')
+_set('C06', 'not_decided', 'READ/VAL string scanners beyond their bounds; VAL results stored without a cast')
+_add('C06', 'technique', '+ Verus contracts on the generator (conversion emission) and on the INPUT wrapper')
+_add('C11', 'decides', 'pos_propagation: the blanket impls of converter/common/convertible.rs and Positioned::map/try_map give the converted node EXACTLY the position of the node it was made from; an error of the element conversion is passed on unchanged.')
+_set('C11', 'not_decided', 'that each concrete rule of the converter and each generator method uses the position of ITS statement (only the generic re-positioning is proved); reading a file (TryFrom<File>)')
+_add('C12', 'decides', 'Verus, the type rules on their real bodies: ConditionTypeLinter / SelectCaseLinter as overriding linters (theorem: Ok(program) <=> every IF/ELSEIF/WHILE/DO condition anywhere in the tree is numeric / every CASE expression is comparable with its selector); ArgValidation and the 43 built-in lint functions (Ok exactly when each argument exists and has the kind its run-time wrapper reads); on_assignment (const target rejected, converted right side can be cast to the converted left side, TypeMismatch at the right side); cast_binary_op against an operator-type table written from the property, binary_cast, unary/binary convert, resolve_function; apply_linters (Ok <=> all nine linters accept) and post_linter; DECLARE/implementation signature agreement.')
+_set('C12', 'not_decided', 'verdict stability under renaming; the statement-level traversal of ExpressionReducer beyond assignment and DIM bounds; function.rs::convert and variable.rs::convert dispatch through Vec<Box<dyn ..>> (pinned, assumed); FOR bounds are not type-checked')
+_add('C13', 'decides', 'name_rules (Verus): every rule of converter/expr_rules/variable.rs and qualify_name.rs on its real body as a function of the name-table view (ExistingVar, ExistingConst, AssignToFunction, function call without arguments, new implicit variable in the CURRENT scope, cannot_assign_to_const), eight lemmas restating the sentences of the property over first_rule; const_rules: a CONST cannot co-exist with a visible variable of its name.')
+_set('C13', 'not_decided', 'the composition `convert` of the rule list (Vec<Box<dyn VarResolve>>: pinned and assumed); DIM / REDIM rules unless unit dim_rules is listed in the evidence')
+_set('C13', 'level_text', 'Proof of the DEFtype letter table (Kani, complete over all letters and ranges), of the name-table lookup rules and of every rule of the converter\'s ordered rule list on its real body (Verus); the composition of the rule list (dyn dispatch) is pinned and assumed.')
+_add('C14', 'decides', 'const_eval (Verus): eval_const(e) == spec_eval(visible constants, e), a recursive spec over the whole expression tree (left first, first error wins, the operator step is the oracle const_step proves equal to the VM, every non-constant form InvalidConstant at its position), terminating; const_rules: ONE rule const_value_rule (eval(e), cast to the suffix of the name when it has another one) proved for BOTH recorders (ConstantMap::visit and new_const), duplicates rejected with the table unchanged; names_outer: a local CONST hides a global one.')
+_set('C14', 'not_decided', 'substitution of the uses of a constant in the converter beyond the ExistingConst rules of name_rules; `STRING * n` lengths (core/string_length.rs)')
+_set('C14', 'level_note', 'the operator step on literals is Kani (bit for bit against the VM), the recursion over the tree and the two recorders are Verus (unbounded in expression size)')
+_add('C14', 'technique', '+ Verus contracts on the evaluator recursion and the CONST recorders')
+_set('C15', 'level_text', 'Proof (Verus, unbounded in program size) of the label resolver and statement-address contracts and of the whole code generator for a LINEAR stack discipline and label closure (no generator function is assumed: the three .enumerate() loops are proved after rewrite R14); label uniqueness and balance along every path are listed as undischarged and not claimed.')
+_add('C16', 'decides', 'Generator (gen_balance, print.rs): the code of a PRINT statement first selects the destination (file #n / LPRINT / screen), then sets the format, then holds the code of the items in textual order, each ending with its own print instruction (a separator is exactly one instruction), and ends with PrintEnd.')
+_add('C16', 'technique', '+ Verus contracts on the PRINT emitters of the generator')
+_set('C18', 'level_text', 'Proof (Verus) of the handle-table protocol and error mapping and of the built-in wrappers OPEN, EOF, LINE INPUT, INPUT, FIELD, LSET, PUT, GET on their real bodies against a trait-level contract of the interpreter (readers and the File as ghost call/operation logs); the line/field reader as a bounded stand-in (Kani); round trips through the host file system are outside every contract.')
+_add('C18', 'decides', 'Wrappers: OPEN calls the manager with exactly the decoded arguments (errors 55/53 carry over); EOF(n) = one eof() call of that handle\'s INPUT reader; LINE INPUT / INPUT on BOTH devices store what one line_input() / input() call returned ("console INPUT and LINE INPUT split fields and lines exactly as their file forms do"); FIELD records the list in order and rejects a list wider than LEN; PUT = one seek + one write of the padded/truncated field variables; GET assigns each field its slice, no index out of bounds; wrong mode / closed handle -> BadFileMode / FileNotFound; on an error nothing changes.')
+_set('C18', 'not_decided', 'CLOSE (iterator adapters on an opaque impl Iterator), KILL/NAME (std::fs directly), FileInfo::get_record and mark_current_field_list (declared); read-back-what-was-written, APPEND, PUT/GET persistence (host file system across a history of calls)')
+_set('C18', 'technique', 'Verus contracts on the extracted FileManager (File opaque, ghost operation log) and on the extracted built-in wrappers (trait-level contract on InterpreterTrait / Input) + bounded Kani harness on the generic reader')
